@@ -178,6 +178,56 @@ def validate(ctx, trs, sigprefix='cross:trace'):
     return [verdicts.get(id(t), dict(ok=True, why='not validated (no seam)')) for t in trs]
 
 
+def check_shared_info(ctx):
+    """histories: the stop contract is per call.  A call made after another one - sharing the caller's info dictionary,
+    or both relying on the default one - must behave exactly like the same call on a fresh dictionary."""
+    n = [3, 4, 3, 2]
+    T = teneva.rand(n, 2, seed=8)
+    Fd = R.dense(T)
+
+    def f(I):
+        return Fd[tuple(np.asarray(I).T)]
+    Y0 = teneva.rand(n, 2, seed=9)
+    plans = [
+        [dict(m=25), dict(nswp=2)],
+        [dict(m=25, nswp=3), dict(nswp=1), dict(m=40)],
+        [dict(nswp=1, e=1e-6), dict(m=30), dict(nswp=2, e_vld=1e-9, vld=True)],
+        [dict(m=10, cache=True), dict(nswp=2, cache=True), dict(nswp=1)],
+    ]
+    I_v = np.array([[0, 1, 2, 1], [2, 3, 0, 0], [1, 1, 1, 1], [2, 0, 2, 1]])
+    y_v = Fd[tuple(I_v.T)]
+
+    def call(kw, info):
+        kw = dict(kw)
+        extra = {}
+        if kw.pop('cache', False):
+            extra['cache'] = {}
+        if kw.pop('vld', False):
+            extra.update(I_vld=I_v, y_vld=y_v)
+        if info is not None:
+            extra['info'] = info
+        return teneva.cross(f, [G.copy() for G in Y0], **kw, **extra)
+    for mode in ('shared', 'default'):
+        for p, plan in enumerate(plans):
+            shared = {}
+            for j, kw in enumerate(plan):
+                fresh = {}
+                Yf = call(kw, fresh)
+                Ys = call(kw, shared if mode == 'shared' else None)
+                if mode == 'default':
+                    import inspect
+                    shared = inspect.signature(teneva.cross).parameters['info'].default
+                    if not isinstance(shared, dict):
+                        break
+                ctx.case(key=('history', mode, p, j), nontrivial=j > 0)
+                same = len(Yf) == len(Ys) and all(a.shape == b.shape and np.array_equal(a, b) for a, b in zip(Yf, Ys))
+                keys = ('m', 'm_cache', 'nswp', 'stop', 'e_vld')
+                ok = same and all(fresh.get(k_) == shared.get(k_) for k_ in keys)
+                ctx.check(ok, 'cross:history', 'call %d of plan %s (%s info dictionary): result / info differ from the same call on a fresh dictionary: '
+                          'fresh %s, %s %s' % (j, plan, mode, {k_: fresh.get(k_) for k_ in keys}, mode, {k_: shared.get(k_) for k_ in keys}),
+                          case={'plan': repr(plan), 'mode': mode, 'call': j})
+
+
 def validate_repo_tests(ctx):
     """code -> spec on the repository's own cross tests: sizes-only traces against the count abstraction CrossCounts
     (Cross refines CrossCounts: PROPERTY Refines in MC_Cross_q0.cfg)."""
@@ -212,6 +262,7 @@ def run(ctx):
     replay_scripts(ctx)
     trs = collect_traces(ctx)
     validate(ctx, trs)
+    check_shared_info(ctx)
     validate_repo_tests(ctx)
 
 
